@@ -11,6 +11,7 @@ import (
 	sdk "github.com/cosmos/cosmos-sdk/types"
 
 	oraclekeeper "mods.irisnet.org/modules/oracle/keeper"
+	randomtypes "mods.irisnet.org/modules/random/types"
 	oracletypes "mods.irisnet.org/modules/oracle/types"
 	servicekeeper "mods.irisnet.org/modules/service/keeper"
 	servicetypes "mods.irisnet.org/modules/service/types"
@@ -25,12 +26,14 @@ import (
 //   update : A sender, B context, N timeout, M frequency, C total
 //   respond: B context, D provider (0: actor 2, 1: actor 3)
 //   block  : Dt seconds — the service end-blocker of the current block, then the next block
-// environment only (contexts owned by the oracle module are outside the model: they and their
-// queue entries are filtered out of the observations; what they add is the module callbacks
-// running inside the end-blocker):
-//   feed    : N timeout, M frequency, D provider set (bits 0, 1), C response threshold — create and start a feed
+// contexts owned by modules (their callbacks run inside the end-blocker):
+//   feed    : N timeout, M frequency, D provider set (bits 0, 1), C response threshold — oracle CreateFeed + StartFeed
 //   frespond: B feed (index), D provider, E value (0: not a number)
-//   fpause / fstart: B feed
+//   fpause / fstart: B feed                  — oracle PauseFeed / StartFeed
+//   fedit   : B feed, N timeout, M frequency, C response threshold, D provider set (0: keep) — oracle EditFeed
+//   rreq    : MsgRequestRandom{oracle: true, interval 1} — a PAUSED context of the random module, started by
+//             random's begin blocker two blocks later (at most one per block)
+//   rrespond: B random request (index), G: the seed has the wrong length
 
 const svcName = "queue-svc"
 
@@ -47,9 +50,10 @@ func genService(r *lib.Rand, tier string) History {
 		paused, dead    bool
 	}
 	var cs []gc
-	nfeeds := 0
+	nfeeds, nrreq := 0, 0
 	for b := 0; b < nblocks; b++ {
 		height := int64(b + 1)
+		rreqThisBlock := false
 		pick := func(want func(g gc) bool) int {
 			var ok []int
 			for i, g := range cs {
@@ -114,13 +118,16 @@ func genService(r *lib.Rand, tier string) History {
 				if r.Chance(1, 15) {
 					st.A = 1 - st.A
 				}
+				if st.Op != "respond" && r.Chance(1, 14) {
+					st.A, st.E = 0, 1+r.Intn(2) // a consumer message aimed at a context owned by a module
+				}
 				if r.Chance(1, 25) {
 					st.B = -1
 				}
 				h.Steps = append(h.Steps, st)
 				continue
 			}
-			if r.Chance(1, 4) {
+			if r.Chance(1, 3) {
 				switch {
 				case nfeeds == 0 || r.Chance(1, 5):
 					n := int64(1 + r.Intn(3))
@@ -128,10 +135,34 @@ func genService(r *lib.Rand, tier string) History {
 					nfeeds++
 				case r.Chance(4, 6):
 					h.Steps = append(h.Steps, Step{Op: "frespond", B: r.Intn(nfeeds), D: r.Intn(2), E: r.Intn(50)})
-				case r.Chance(1, 2):
+				case r.Chance(1, 3):
 					h.Steps = append(h.Steps, Step{Op: "fpause", B: r.Intn(nfeeds)})
-				default:
+				case r.Chance(1, 2):
 					h.Steps = append(h.Steps, Step{Op: "fstart", B: r.Intn(nfeeds)})
+				default:
+					st := Step{Op: "fedit", B: r.Intn(nfeeds)}
+					switch r.Intn(4) {
+					case 0:
+						st.C = 1 + r.Intn(2)
+					case 1:
+						st.N = int64(1 + r.Intn(3))
+						st.M = st.N + int64(r.Intn(3))
+					case 2:
+						st.D, st.C = 1+r.Intn(3), 1+r.Intn(2)
+					case 3:
+						st.M = int64(1 + r.Intn(5))
+					}
+					h.Steps = append(h.Steps, st)
+				}
+				continue
+			}
+			if r.Chance(1, 6) {
+				if !rreqThisBlock && (nrreq == 0 || r.Chance(1, 2)) {
+					h.Steps = append(h.Steps, Step{Op: "rreq"})
+					nrreq++
+					rreqThisBlock = true
+				} else if nrreq > 0 {
+					h.Steps = append(h.Steps, Step{Op: "rrespond", B: nrreq - 1 - r.Intn(minInt(nrreq, 2)), G: r.Chance(1, 5)})
 				}
 				continue
 			}
@@ -219,28 +250,41 @@ func execService(h History) lib.Case {
 		return e.App.BankKeeper.SendCoins(ctx, e.Actors[1], e.Actors[0], sdk.NewCoins(sdk.NewCoin("stake", b.Amount.SubRaw(7))))
 	}))
 
+	setup("bind random", e.Deliver(servicetypes.NewMsgBindService(randomtypes.ServiceName, e.Actors[2].String(),
+		sdk.NewCoins(sdk.NewCoin("stake", sdkmath.NewInt(100000000))), `{"price":"2stake"}`, 1, "{}", e.Actors[2].String())))
+
 	ids := lib.NewInterner()
 	ids.Id("") // 0: none
-	var created []string // context ids (raw bytes) in creation order
-	ctxOf := func(idx int) string {
-		if idx >= 0 && idx < len(created) {
-			return created[idx]
+	var created []string // ids (raw bytes) of the contexts made by MsgCallService
+	var feeds []string   // feed names
+	feedCtx := map[string]string{}
+	var rreqs []string // contexts of the random module
+	// the context a consumer message aims at: E = 1 a feed, E = 2 a random request (both refused), else a call
+	target := func(st Step) string {
+		switch {
+		case st.E == 1 && len(feeds) > 0:
+			return feedCtx[feeds[(st.B+len(feeds)*8)%len(feeds)]]
+		case st.E == 2 && len(rreqs) > 0:
+			return rreqs[(st.B+len(rreqs)*8)%len(rreqs)]
+		case st.B >= 0 && st.B < len(created):
+			return created[st.B]
 		}
 		return string(make([]byte, 40))
 	}
-	type cview struct {
-		rc servicetypes.RequestContext
+	moduleCode := func(name string) int64 {
+		switch name {
+		case "":
+			return 0
+		case "oracle":
+			return 1
+		case randomtypes.ModuleName:
+			return 2
+		}
+		return 9
 	}
-	owned := map[string]bool{} // contexts owned by a module (feeds): outside the model
-	var feeds []string         // feed names
-	feedCtx := map[string]string{}
 	readCtxs := func() map[string]servicetypes.RequestContext {
 		m := map[string]servicetypes.RequestContext{}
 		k.IterateRequestContexts(e.Ctx, func(id tmbytes.HexBytes, rc servicetypes.RequestContext) bool {
-			if rc.ModuleName != "" {
-				owned[string(id)] = true
-				return false
-			}
 			m[string(id)] = rc
 			return false
 		})
@@ -250,9 +294,6 @@ func execService(h History) lib.Case {
 		keys, vals := readKeys(e, servicetypes.StoreKey, prefix)
 		var out []string
 		for i, kk := range keys {
-			if owned[kk] {
-				continue
-			}
 			var v gogotypes.Int64Value
 			e.App.AppCodec().MustUnmarshal(vals[i], &v)
 			out = append(out, lib.Pair(lib.Z(int64(ids.Id(kk))), lib.Z(v.Value)))
@@ -262,26 +303,21 @@ func execService(h History) lib.Case {
 	observe := func(code int) string {
 		var cs []string
 		k.IterateRequestContexts(e.Ctx, func(id tmbytes.HexBytes, rc servicetypes.RequestContext) bool {
-			if rc.ModuleName != "" {
-				owned[string(id)] = true
-				return false
-			}
+			outs := len(k.GetResponseOutputs(e.Ctx, id, rc.BatchCounter))
 			cs = append(cs, lib.Pair(lib.Z(int64(ids.Id(string(id)))), lib.Pair(
 				lib.Pair(lib.Z(int64(rc.State)), lib.B(rc.BatchState == servicetypes.BATCHCOMPLETED), lib.ZU(rc.BatchCounter)),
 				lib.Pair(lib.Z(rc.Timeout), lib.ZU(rc.RepeatedFrequency), lib.Z(rc.RepeatedTotal)),
-				lib.Pair(lib.Z(int64(rc.BatchRequestCount)), lib.Z(int64(rc.BatchResponseCount))))))
+				lib.Pair(lib.Z(int64(rc.BatchRequestCount)), lib.Z(int64(rc.BatchResponseCount))),
+				lib.Pair(lib.Z(moduleCode(rc.ModuleName)), lib.Z(int64(len(rc.Providers))), lib.Z(int64(rc.ResponseThreshold)),
+					lib.Z(int64(rc.BatchResponseThreshold)), lib.Z(int64(outs))))))
 			return false
 		})
 		var nq, xq []string
 		for _, en := range readQueue(e, servicetypes.StoreKey, servicetypes.NewRequestBatchKey) {
-			if !owned[en.ID] {
-				nq = append(nq, zz(en.Height, ids.Id(en.ID)))
-			}
+			nq = append(nq, zz(en.Height, ids.Id(en.ID)))
 		}
 		for _, en := range readQueue(e, servicetypes.StoreKey, servicetypes.ExpiredRequestBatchKey) {
-			if !owned[en.ID] {
-				xq = append(xq, zz(en.Height, ids.Id(en.ID)))
-			}
+			xq = append(xq, zz(en.Height, ids.Id(en.ID)))
 		}
 		return lib.App("mkSObs", lib.Z(int64(code)), lib.Z(e.Height), lib.L(cs...), lib.L(nq...), lib.L(xq...),
 			lib.L(readMarks(servicetypes.NewRequestBatchHeightKey)...), lib.L(readMarks(servicetypes.ExpiredRequestBatchHeightKey)...))
@@ -296,11 +332,38 @@ func execService(h History) lib.Case {
 		}
 		return false
 	}
+	// the request of the context's current batch that a provider can still answer
+	activeRequest := func(raw string, prov sdk.AccAddress, anyProvider bool) (string, sdk.AccAddress) {
+		reqID := strings.Repeat("00", 58)
+		rc, ok := readCtxs()[raw]
+		if !ok {
+			return reqID, prov
+		}
+		k.IterateActiveRequests(e.Ctx, []byte(raw), rc.BatchCounter, func(rid tmbytes.HexBytes, rq servicetypes.Request) {
+			if rq.Provider == prov.String() {
+				reqID = rid.String()
+			}
+		})
+		if reqID == strings.Repeat("00", 58) && anyProvider {
+			k.IterateActiveRequests(e.Ctx, []byte(raw), rc.BatchCounter, func(rid tmbytes.HexBytes, rq servicetypes.Request) {
+				reqID = rid.String()
+				prov, _ = sdk.AccAddressFromBech32(rq.Provider)
+			})
+		}
+		return reqID, prov
+	}
 
 	var terms []string
 	nontrivial := false
+	emit := func(term, text string) {
+		terms = append(terms, term)
+		c.Steps = append(c.Steps, text)
+	}
+	stat := func(op string, out lib.Outcome) {
+		lib.Stat(c.Stats, "op:"+op)
+		lib.Stat(c.Stats, "res:"+out.Kind)
+	}
 	for _, st := range h.Steps {
-		var term string
 		switch st.Op {
 		case "call":
 			var provs []string
@@ -320,12 +383,11 @@ func execService(h History) lib.Case {
 			} else {
 				id = 100000 + len(terms)
 			}
-			term = lib.Pair(lib.App("Call", lib.Z(int64(id)), lib.Z(int64(st.A)), lib.Z(st.N), lib.B(st.F), lib.Z(st.M), lib.Z(int64(st.C)), outcomeTerm(out.Code())), observe(out.Code()))
-			lib.Stat(c.Stats, "op:call")
-			lib.Stat(c.Stats, "res:"+out.Kind)
-			c.Steps = append(c.Steps, fmt.Sprintf("call #%d by %d timeout=%d repeated=%v freq=%d total=%d providers=%d at %d -> %s %s", id, st.A, st.N, st.F, st.M, st.C, st.D, e.Height, out.Kind, out.Err))
+			stat("call", out)
+			emit(lib.Pair(lib.App("Call", lib.Z(int64(id)), lib.Z(int64(st.A)), lib.Z(st.N), lib.B(st.F), lib.Z(st.M), lib.Z(int64(st.C)), lib.Z(int64(len(provs))), outcomeTerm(out.Code())), observe(out.Code())),
+				fmt.Sprintf("call #%d by %d timeout=%d repeated=%v freq=%d total=%d providers=%d at %d -> %s %s", id, st.A, st.N, st.F, st.M, st.C, st.D, e.Height, out.Kind, out.Err))
 		case "pause", "start", "kill":
-			raw := ctxOf(st.B)
+			raw := target(st)
 			if dueNow(raw) {
 				nontrivial = true
 			}
@@ -342,113 +404,154 @@ func execService(h History) lib.Case {
 			}
 			out := e.Deliver(msg)
 			id := ids.Id(raw)
-			term = lib.Pair(lib.App(ctor, lib.Z(int64(id)), lib.Z(int64(st.A)), outcomeTerm(out.Code())), observe(out.Code()))
-			lib.Stat(c.Stats, "op:"+st.Op)
-			lib.Stat(c.Stats, "res:"+out.Kind)
-			c.Steps = append(c.Steps, fmt.Sprintf("%s #%d by %d at %d -> %s %s", st.Op, id, st.A, e.Height, out.Kind, out.Err))
+			stat(st.Op, out)
+			emit(lib.Pair(lib.App(ctor, lib.Z(int64(id)), lib.Z(int64(st.A)), outcomeTerm(out.Code())), observe(out.Code())),
+				fmt.Sprintf("%s #%d by %d at %d -> %s %s", st.Op, id, st.A, e.Height, out.Kind, out.Err))
 		case "update":
-			raw := ctxOf(st.B)
+			raw := target(st)
 			if dueNow(raw) {
 				nontrivial = true
 			}
 			hexid := strings.ToUpper(hex.EncodeToString([]byte(raw)))
 			out := e.Deliver(servicetypes.NewMsgUpdateRequestContext(hexid, nil, nil, st.N, uint64(st.M), int64(st.C), e.Actors[st.A].String()))
 			id := ids.Id(raw)
-			term = lib.Pair(lib.App("Update", lib.Z(int64(id)), lib.Z(int64(st.A)), lib.Z(st.N), lib.Z(st.M), lib.Z(int64(st.C)), outcomeTerm(out.Code())), observe(out.Code()))
-			lib.Stat(c.Stats, "op:update")
-			lib.Stat(c.Stats, "res:"+out.Kind)
-			c.Steps = append(c.Steps, fmt.Sprintf("update #%d by %d timeout=%d freq=%d total=%d at %d -> %s %s", id, st.A, st.N, st.M, st.C, e.Height, out.Kind, out.Err))
+			stat("update", out)
+			emit(lib.Pair(lib.App("Update", lib.Z(int64(id)), lib.Z(int64(st.A)), lib.Z(st.N), lib.Z(st.M), lib.Z(int64(st.C)), outcomeTerm(out.Code())), observe(out.Code())),
+				fmt.Sprintf("update #%d by %d timeout=%d freq=%d total=%d at %d -> %s %s", id, st.A, st.N, st.M, st.C, e.Height, out.Kind, out.Err))
 		case "respond":
-			raw := ctxOf(st.B)
-			prov := e.Actors[2+st.D%2]
-			reqID := strings.Repeat("00", 58)
-			if rc, ok := readCtxs()[raw]; ok {
-				k.IterateActiveRequests(e.Ctx, []byte(raw), rc.BatchCounter, func(rid tmbytes.HexBytes, rq servicetypes.Request) {
-					if rq.Provider == prov.String() {
-						reqID = rid.String()
-					}
-				})
-			}
+			raw := target(Step{B: st.B})
+			reqID, prov := activeRequest(raw, e.Actors[2+st.D%2], false)
 			out := e.Deliver(servicetypes.NewMsgRespondService(reqID, prov.String(), `{"code":200,"message":""}`, `{"header":{},"body":{}}`))
 			id := ids.Id(raw)
-			term = lib.Pair(lib.App("Respond", lib.Z(int64(id)), outcomeTerm(out.Code())), observe(out.Code()))
-			lib.Stat(c.Stats, "op:respond")
-			lib.Stat(c.Stats, "res:"+out.Kind)
-			c.Steps = append(c.Steps, fmt.Sprintf("respond #%d provider %d at %d -> %s %s", id, 2+st.D%2, e.Height, out.Kind, out.Err))
-		case "feed", "frespond", "fpause", "fstart":
+			stat("respond", out)
+			emit(lib.Pair(lib.App("Respond", lib.Z(int64(id)), "true", "true", outcomeTerm(out.Code())), observe(out.Code())),
+				fmt.Sprintf("respond #%d provider %d at %d -> %s %s", id, 2+st.D%2, e.Height, out.Kind, out.Err))
+		case "feed":
 			creator := e.Actors[0].String()
-			var out lib.Outcome
-			switch st.Op {
-			case "feed":
-				name := fmt.Sprintf("feed%d", len(feeds))
-				var provs []string
-				for bit, a := range []int{2, 3} {
-					if st.D&(1<<bit) != 0 {
-						provs = append(provs, e.Actors[a].String())
-					}
+			name := fmt.Sprintf("feed%d", len(feeds))
+			var provs []string
+			for bit, a := range []int{2, 3} {
+				if st.D&(1<<bit) != 0 {
+					provs = append(provs, e.Actors[a].String())
 				}
-				thr := st.C
-				if thr > len(provs) {
-					thr = len(provs)
-				}
-				out = e.Deliver(&oracletypes.MsgCreateFeed{FeedName: name, LatestHistory: 3, Description: "f", Creator: creator,
-					ServiceName: svcName, Providers: provs, Input: `{"header":{},"body":{}}`, Timeout: st.N,
-					ServiceFeeCap: sdk.NewCoins(sdk.NewCoin("stake", sdkmath.NewInt(100))), RepeatedFrequency: uint64(st.M),
-					AggregateFunc: []string{"avg", "max", "min"}[len(feeds)%3], ValueJsonPath: "last", ResponseThreshold: uint32(thr)})
-				if out.OK() {
-					feeds = append(feeds, name)
-					if f, ok := ork.GetFeed(e.Ctx, name); ok {
-						raw, _ := hex.DecodeString(f.RequestContextID)
-						feedCtx[name] = string(raw)
-						owned[string(raw)] = true
-					}
-					out = e.Deliver(&oracletypes.MsgStartFeed{FeedName: name, Creator: creator})
-				}
-			case "frespond":
-				if len(feeds) == 0 {
-					continue
-				}
-				raw := feedCtx[feeds[st.B%len(feeds)]]
-				prov := e.Actors[2+st.D%2]
-				reqID := strings.Repeat("00", 58)
-				var rc servicetypes.RequestContext
-				k.IterateRequestContexts(e.Ctx, func(id tmbytes.HexBytes, x servicetypes.RequestContext) bool {
-					if string(id) == raw {
-						rc = x
-						return true
-					}
-					return false
-				})
-				k.IterateActiveRequests(e.Ctx, []byte(raw), rc.BatchCounter, func(rid tmbytes.HexBytes, rq servicetypes.Request) {
-					if rq.Provider == prov.String() {
-						reqID = rid.String()
-					}
-				})
-				if reqID == strings.Repeat("00", 58) { // that provider has nothing to answer: any other one
-					k.IterateActiveRequests(e.Ctx, []byte(raw), rc.BatchCounter, func(rid tmbytes.HexBytes, rq servicetypes.Request) {
-						reqID = rid.String()
-						prov, _ = sdk.AccAddressFromBech32(rq.Provider)
-					})
-				}
-				val := fmt.Sprintf("%d.5", st.E)
-				if st.E == 0 {
-					val = "not-a-number"
-				}
-				out = e.Deliver(servicetypes.NewMsgRespondService(reqID, prov.String(), `{"code":200,"message":""}`,
-					fmt.Sprintf(`{"header":{},"body":{"last":"%s"}}`, val)))
-			case "fpause":
-				if len(feeds) == 0 {
-					continue
-				}
-				out = e.Deliver(&oracletypes.MsgPauseFeed{FeedName: feeds[st.B%len(feeds)], Creator: creator})
-			case "fstart":
-				if len(feeds) == 0 {
-					continue
-				}
-				out = e.Deliver(&oracletypes.MsgStartFeed{FeedName: feeds[st.B%len(feeds)], Creator: creator})
 			}
-			lib.Stat(c.Stats, "env:"+st.Op+":"+out.Kind)
-			continue
+			thr := st.C
+			if thr > len(provs) {
+				thr = len(provs)
+			}
+			out := e.Deliver(&oracletypes.MsgCreateFeed{FeedName: name, LatestHistory: 3, Description: "f", Creator: creator,
+				ServiceName: svcName, Providers: provs, Input: `{"header":{},"body":{}}`, Timeout: st.N,
+				ServiceFeeCap: sdk.NewCoins(sdk.NewCoin("stake", sdkmath.NewInt(100))), RepeatedFrequency: uint64(st.M),
+				AggregateFunc: []string{"avg", "max", "min"}[len(feeds)%3], ValueJsonPath: "last", ResponseThreshold: uint32(thr)})
+			id := 100000 + len(terms)
+			raw := ""
+			if out.OK() {
+				feeds = append(feeds, name)
+				if f, ok := ork.GetFeed(e.Ctx, name); ok {
+					rb, _ := hex.DecodeString(f.RequestContextID)
+					raw = string(rb)
+					feedCtx[name] = raw
+					id = ids.Id(raw)
+				}
+			}
+			stat("feed", out)
+			emit(lib.Pair(lib.App("CallM", lib.Z(int64(id)), "0", "1", lib.Z(st.N), "true", lib.Z(st.M), "(-1)", lib.Z(int64(thr)), lib.Z(int64(len(provs))), outcomeTerm(out.Code())), observe(out.Code())),
+				fmt.Sprintf("create feed #%d timeout=%d freq=%d providers=%d threshold=%d at %d -> %s %s", id, st.N, st.M, len(provs), thr, e.Height, out.Kind, out.Err))
+			if out.OK() {
+				out = e.Deliver(&oracletypes.MsgStartFeed{FeedName: name, Creator: creator})
+				stat("fstart", out)
+				emit(lib.Pair(lib.App("MStart", lib.Z(int64(id)), "0", outcomeTerm(out.Code())), observe(out.Code())),
+					fmt.Sprintf("start feed #%d at %d -> %s %s", id, e.Height, out.Kind, out.Err))
+			}
+		case "frespond":
+			if len(feeds) == 0 {
+				continue
+			}
+			raw := feedCtx[feeds[st.B%len(feeds)]]
+			reqID, prov := activeRequest(raw, e.Actors[2+st.D%2], true)
+			val := fmt.Sprintf("%d.5", st.E)
+			if st.E == 0 {
+				val = "not-a-number"
+			}
+			out := e.Deliver(servicetypes.NewMsgRespondService(reqID, prov.String(), `{"code":200,"message":""}`,
+				fmt.Sprintf(`{"header":{},"body":{"last":"%s"}}`, val)))
+			id := ids.Id(raw)
+			stat("frespond", out)
+			emit(lib.Pair(lib.App("Respond", lib.Z(int64(id)), "true", "true", outcomeTerm(out.Code())), observe(out.Code())),
+				fmt.Sprintf("respond to feed #%d value %s at %d -> %s %s", id, val, e.Height, out.Kind, out.Err))
+		case "fpause", "fstart":
+			if len(feeds) == 0 {
+				continue
+			}
+			name := feeds[st.B%len(feeds)]
+			raw := feedCtx[name]
+			if dueNow(raw) {
+				nontrivial = true
+			}
+			var out lib.Outcome
+			ctor := "MPause"
+			if st.Op == "fpause" {
+				out = e.Deliver(&oracletypes.MsgPauseFeed{FeedName: name, Creator: e.Actors[0].String()})
+			} else {
+				ctor = "MStart"
+				out = e.Deliver(&oracletypes.MsgStartFeed{FeedName: name, Creator: e.Actors[0].String()})
+			}
+			id := ids.Id(raw)
+			stat(st.Op, out)
+			emit(lib.Pair(lib.App(ctor, lib.Z(int64(id)), "0", outcomeTerm(out.Code())), observe(out.Code())),
+				fmt.Sprintf("%s feed #%d at %d -> %s %s", st.Op[1:], id, e.Height, out.Kind, out.Err))
+		case "fedit":
+			if len(feeds) == 0 {
+				continue
+			}
+			name := feeds[st.B%len(feeds)]
+			raw := feedCtx[name]
+			if dueNow(raw) {
+				nontrivial = true
+			}
+			var provs []string
+			for bit, a := range []int{2, 3} {
+				if st.D&(1<<bit) != 0 {
+					provs = append(provs, e.Actors[a].String())
+				}
+			}
+			out := e.Deliver(&oracletypes.MsgEditFeed{FeedName: name, Description: "do-not-modify", Providers: provs, Timeout: st.N,
+				RepeatedFrequency: uint64(st.M), ResponseThreshold: uint32(st.C), Creator: e.Actors[0].String()})
+			id := ids.Id(raw)
+			stat("fedit", out)
+			emit(lib.Pair(lib.App("MUpdate", lib.Z(int64(id)), "0", lib.Z(int64(st.C)), lib.Z(int64(len(provs))), lib.Z(st.N), lib.Z(st.M), outcomeTerm(out.Code())), observe(out.Code())),
+				fmt.Sprintf("edit feed #%d threshold=%d providers=%d timeout=%d freq=%d at %d -> %s %s", id, st.C, len(provs), st.N, st.M, e.Height, out.Kind, out.Err))
+		case "rreq":
+			before := readCtxs()
+			out := e.Deliver(randomtypes.NewMsgRequestRandom(e.Actors[0].String(), 1, true, sdk.NewCoins(sdk.NewCoin("stake", sdkmath.NewInt(10)))))
+			id := 100000 + len(terms)
+			if out.OK() {
+				for raw, rc := range readCtxs() {
+					if _, ok := before[raw]; !ok && rc.ModuleName == randomtypes.ModuleName {
+						rreqs = append(rreqs, raw)
+						id = ids.Id(raw)
+					}
+				}
+			}
+			stat("rreq", out)
+			emit(lib.Pair(lib.App("CallM", lib.Z(int64(id)), "0", "2", "10", "false", "0", "0", "1", "1", outcomeTerm(out.Code())), observe(out.Code())),
+				fmt.Sprintf("random oracle request #%d at %d -> %s %s", id, e.Height, out.Kind, out.Err))
+		case "rrespond":
+			if len(rreqs) == 0 {
+				continue
+			}
+			raw := rreqs[st.B%len(rreqs)]
+			reqID, prov := activeRequest(raw, e.Actors[2], true)
+			seed := strings.Repeat("ab", 32)
+			if st.G {
+				seed = strings.Repeat("ab", 16) // decodes, wrong length: random's HandlerResponse dereferences a nil error
+			}
+			out := e.Deliver(servicetypes.NewMsgRespondService(reqID, prov.String(), `{"code":200,"message":""}`,
+				fmt.Sprintf(`{"header":{},"body":{"seed":"%s"}}`, seed)))
+			id := ids.Id(raw)
+			stat("rrespond", out)
+			emit(lib.Pair(lib.App("Respond", lib.Z(int64(id)), "true", lib.B(!st.G), outcomeTerm(out.Code())), observe(out.Code())),
+				fmt.Sprintf("respond to random request #%d (bad seed: %v) at %d -> %s %s", id, st.G, e.Height, out.Kind, out.Err))
 		case "block":
 			// which providers pass the filter, per context, on the state before the blocker
 			pre := readCtxs()
@@ -495,21 +598,48 @@ func execService(h History) lib.Case {
 			}
 			openBlock(e, st.Dt)
 			runBlocker(e, "service", true)
-			term = lib.Pair(lib.App("EndBlock", lib.L(res...)), observe(code))
 			lib.Stat(c.Stats, "op:block")
 			if filterErr > 0 {
 				lib.Stat(c.Stats, "filter:no-exchange-rate")
 			}
+			text := fmt.Sprintf("end-block %d: %d due, %d contexts", e.Height-1, ndue, len(post))
 			if code != 0 {
 				lib.Stat(c.Stats, "blocker:abort")
-				c.Steps = append(c.Steps, fmt.Sprintf("end-block %d ABORT %s", e.Height-1, msg))
-			} else {
-				c.Steps = append(c.Steps, fmt.Sprintf("end-block %d: %d due, %d contexts", e.Height-1, ndue, len(post)))
+				text = fmt.Sprintf("end-block %d ABORT %s", e.Height-1, msg)
+			}
+			emit(lib.Pair(lib.App("EndBlock", lib.L(res...)), observe(code)), text)
+			// random's begin blocker starts the oracle requests that fell due in the previous block
+			var starting []string
+			for _, en := range readQueue(e, randomtypes.StoreKey, randomtypes.RandomRequestQueueKey) {
+				if en.Height != e.Height-1 {
+					continue
+				}
+				var req randomtypes.Request
+				e.App.AppCodec().MustUnmarshal(en.Value, &req)
+				if req.Oracle {
+					rb, _ := hex.DecodeString(req.ServiceContextID)
+					starting = append(starting, string(rb))
+				}
+			}
+			bcode, _, bmsg := runBlocker(e, "random", true)
+			if bcode != 0 {
+				c.Notes = append(c.Notes, "random begin-blocker aborted in the service stream: "+bmsg)
+			}
+			if len(starting) > 1 {
+				c.Notes = append(c.Notes, "more than one random oracle request started in one block (generator bug)")
+			}
+			for _, raw := range starting {
+				oc := 1
+				if rc, ok := readCtxs()[raw]; ok && rc.State == servicetypes.RUNNING {
+					oc = 0
+				}
+				lib.Stat(c.Stats, "op:rstart")
+				emit(lib.Pair(lib.App("MStart", lib.Z(int64(ids.Id(raw))), "0", outcomeTerm(oc)), observe(oc)),
+					fmt.Sprintf("random begin-block %d starts #%d -> %d", e.Height, ids.Id(raw), oc))
 			}
 		default:
 			panic("service: unknown op " + st.Op)
 		}
-		terms = append(terms, term)
 	}
 	c.Coq = lib.Pair("1", lib.L(terms...))
 	c.NonTrivial = nontrivial
